@@ -157,6 +157,7 @@ type FuncDecl struct {
 	Def  string   // optional define-fun body (with Params)
 	Par  []string // parameter names for Def
 	Rec  bool
+	Opaque bool
 }
 
 type Reg struct {
@@ -502,6 +503,7 @@ const seqTemplate = `
 (assert (forall ((a @S) (b @S)) (! (= (len_@ (cat_@ a b)) (+ (len_@ a) (len_@ b))) :pattern ((cat_@ a b)))))
 (assert (forall ((a @S) (b @S) (i Int)) (! (=> (and (<= 0 i) (< i (+ (len_@ a) (len_@ b)))) (= (at_@ (cat_@ a b) i) (ite (< i (len_@ a)) (at_@ a i) (at_@ b (- i (len_@ a)))))) :pattern ((at_@ (cat_@ a b) i)))))
 (assert (forall ((a @S)) (! (= (cat_@ a nil_@) a) :pattern ((cat_@ a nil_@)))))
+(assert (forall ((a @S)) (! (= (cat_@ nil_@ a) a) :pattern ((cat_@ nil_@ a)))))
 (assert (forall ((x @E)) (! (and (= (len_@ (one_@ x)) 1) (= (at_@ (one_@ x) 0) x)) :pattern ((one_@ x)))))
 (assert (forall ((s @S) (i Int) (x @E)) (! (= (len_@ (upd_@ s i x)) (len_@ s)) :pattern ((upd_@ s i x)))))
 (assert (forall ((s @S) (i Int) (x @E) (j Int)) (! (=> (and (<= 0 i) (< i (len_@ s))) (= (at_@ (upd_@ s i x) j) (ite (= j i) x (at_@ s j)))) :pattern ((at_@ (upd_@ s i x) j)))))
@@ -619,7 +621,7 @@ func (r *Reg) Prelude() string {
 	}
 	for _, n := range r.funcOrd {
 		fd := r.funcs[n]
-		if fd.Def != "" && !fd.Rec {
+		if fd.Def != "" && !fd.Rec && !fd.Opaque {
 			fmt.Fprintf(&sb, "(define-fun %s (", fd.Name)
 			for i, a := range fd.Args {
 				fmt.Fprintf(&sb, "(%s %s)", fd.Par[i], a)
@@ -652,6 +654,27 @@ func (r *Reg) Prelude() string {
 		sb.WriteString("\n")
 	}
 	return sb.String()
+}
+
+// RevealAxiom: the definitional axiom of an opaque function
+func (r *Reg) RevealAxiom(name string) string {
+	fd := r.funcs[name]
+	if fd == nil || !fd.Opaque || fd.Def == "" {
+		return ""
+	}
+	if fd.Rec {
+		return ""
+	}
+	var bs, as []string
+	for i, a := range fd.Args {
+		bs = append(bs, fmt.Sprintf("(%s %s)", fd.Par[i], a))
+		as = append(as, fd.Par[i])
+	}
+	if len(as) == 0 {
+		return fmt.Sprintf("(assert (= %s %s))\n", fd.Name, fd.Def)
+	}
+	app := "(" + fd.Name + " " + strings.Join(as, " ") + ")"
+	return fmt.Sprintf("(assert (forall (%s) (! (= %s %s) :pattern (%s))))\n", strings.Join(bs, " "), app, fd.Def, app)
 }
 
 // seqElemSortById: the registry stores element sorts by their real sort string; Seq sort ids are sanitized.
